@@ -68,7 +68,7 @@ func buildCases(o *vh.Opts) []Case {
 	for k := 0; k < nFan; k++ {
 		cases = append(cases, genFanout(r.Fork()))
 	}
-	nCancel := 14
+	nCancel := 20
 	if o.Tier == "thorough" {
 		nCancel = 56
 	}
